@@ -733,12 +733,15 @@ def g_godambe(s, P, light=True):
     pts = s.choice([[10], [10], [12]])
     model = P.add('model_eval', f, p0, ns, pts)
     data = P.add('S.scale', model, s.choice([1.0, 3.0])) if s.chance(0.3) else P.add('mk_spectrum', s.randint(0, 3), [n + 1 for n in ns], 0.0, False, None, 8.0)
-    boots = [P.add('mk_spectrum', 10 + b, [n + 1 for n in ns], 0.0, False, None, 8.0) for b in range(s.choice([3, 4, 5]))]
+    allboots = [P.add('mk_spectrum', 10 + b, [n + 1 for n in ns], 0.0, False, None, 8.0) for b in range(s.choice([4, 5, 6]))]
+    boots = allboots
     eps = s.choice([0.01, 0.01, 0.001])
     arr = s.chance(0.4)
     W = (lambda v: {'$arr': v}) if arr else (lambda v: v)
     for _ in range(s.randint(1, 3)):
         r = s.random()
+        # calls of one analysis need not use the same number of bootstraps
+        boots = allboots if s.chance(0.5) else allboots[:s.randint(3, len(allboots) - 1)]
         if r < 0.25:
             lg = s.chance(0.3)
             P.add('G.FIM_uncert', f, pts, W(p0), data, **dict(multinom=multinom, eps=eps, log=lg))
@@ -834,7 +837,7 @@ def g_interference(s, P):
 
 TEMPLATES = [
     (g_chain1d, 10), (g_regrid, 4), (g_chain2d, 12), (g_chain3d, 7), (g_chain4d, 6), (g_chain5d, 2), (g_spectrum, 10), (g_numerics, 7),
-    (g_badcalls, 5), (g_lowpass, 4), (g_lowpass_model, 2), (g_lowpass_dd, 3), (g_optgrid, 2), (g_nlopt, 2), (g_library, 6), (g_datadict, 5), (g_opthelp, 4), (g_objective, 3), (g_inbreeding, 4), (g_extrap, 5), (g_demes, 6), (g_godambe, 8), (g_godambe_neg, 2), (g_godambe_real, 2),
+    (g_badcalls, 5), (g_lowpass, 4), (g_lowpass_model, 2), (g_lowpass_dd, 3), (g_optgrid, 2), (g_nlopt, 2), (g_library, 6), (g_datadict, 5), (g_opthelp, 4), (g_objective, 3), (g_inbreeding, 4), (g_extrap, 5), (g_demes, 6), (g_godambe, 10), (g_godambe_neg, 2), (g_godambe_real, 2),
 ]
 
 
